@@ -240,6 +240,40 @@ def edited_pictures(ck: Check) -> None:
                         {**inp, "item": f"E-{k}"})
 
 
+def lowercase_numeric(ck: Check) -> None:
+    """pictures are not case sensitive: PIC s99v9 / 99v99 are zoned decimals -- declared with the decimal conversion, delivered Decimal"""
+    from stingray.cobol_parser import schema_iter
+    from stingray.schema_instance import EBCDIC, SchemaMaker
+
+    items = [("s99v9", "123", Decimal("12.3")), ("99v99", "1234", Decimal("12.34")), ("v99", "12", Decimal("0.12")), ("999", "123", Decimal("123"))]
+    text = "       01  LC-REC.\n" + "".join(f"           05  L-{k} PIC {p}.\n" for k, (p, _, _) in enumerate(items))
+    inp = {"copybook": text}
+    ck.case(("lowercase", text), feature="lowercase-numeric-pictures")
+    try:
+        doc = next(iter(schema_iter(io.StringIO(text))))
+        schema = SchemaMaker.from_json(doc)
+        widths = [len(b) + (1 if p.lower().startswith("s") else 0) for p, b, _ in items]
+        rec = b"".join(bytes(0xF0 + int(c) for c in b.rjust(w, "0")) for (p, b, _), w in zip(items, widths))
+        unp = EBCDIC()
+        nav = unp.nav(schema, rec)
+    except BaseException as ex:  # noqa: BLE001
+        ck.fail("lowercase-picture", f"record of lower-case numeric pictures cannot be loaded / navigated: {err_enum(ex)}", inp)
+        return
+    for k, (pic, _, want) in enumerate(items):
+        d = doc["properties"][f"L-{k}"]
+        ck.oracle_evaluations += 1
+        got = (d.get("type"), d.get("contentEncoding"), d.get("conversion"))
+        if got != ("string", "cp037", "decimal"):
+            ck.fail("lowercase-picture", f"L-{k} PIC {pic}: a numeric DISPLAY item, the schema says {got}", {**inp, "item": f"L-{k}"})
+        try:
+            v = nav.name(f"L-{k}").value()
+        except BaseException as ex:  # noqa: BLE001
+            ck.fail("lowercase-picture", f"L-{k} PIC {pic}: reading raises {err_enum(ex)}", {**inp, "item": f"L-{k}"})
+            continue
+        if type(v) is not Decimal or v != want:
+            ck.fail("lowercase-picture", f"L-{k} PIC {pic}: delivered {v!r}, stored {want!r}", {**inp, "item": f"L-{k}"})
+
+
 def json_type_table(ck: Check) -> None:
     """both makers' json_type vs the model, over every usage spelling x pictures"""
     import stingray.cobol_parser as CP
@@ -267,6 +301,7 @@ def json_type_table(ck: Check) -> None:
 
 def explore(ck: Check, n: int) -> None:
     edited_pictures(ck)
+    lowercase_numeric(ck)
     rng = ck.rng
     json_type_table(ck)
     for i in range(n):
